@@ -59,10 +59,10 @@ var stdTable = map[string]stdEntry{
 	"bytes.NewBuffer": {ResFresh: true, ResHolds: []int{0}, Note: "fresh buffer that takes ownership of argument 0"},
 
 	// in-place mutators
-	"slices.Sort":            {WritesDeep: []int{0}},
-	"slices.SortFunc":        {WritesDeep: []int{0}},
-	"slices.Insert":          {Writes: []int{0}, ResFresh: true, ResAlias: []int{0}, ResHoldsElems: []int{2}, Note: "grows in place or reallocates, like append"},
-	"slices.Delete":          {Writes: []int{0}, ResFresh: true, ResAlias: []int{0}},
+	"slices.Sort":             {WritesDeep: []int{0}},
+	"slices.SortFunc":         {WritesDeep: []int{0}},
+	"slices.Insert":           {Writes: []int{0}, ResFresh: true, ResAlias: []int{0}, ResHoldsElems: []int{2}, Note: "grows in place or reallocates, like append"},
+	"slices.Delete":           {Writes: []int{0}, ResFresh: true, ResAlias: []int{0}},
 	"encoding/json.Unmarshal": {WritesDeep: []int{1}, StoresFreshDeep: []int{1}, Note: "decodes into argument 1"},
 
 	// streaming decoder (LinkedHashMap.FromJSON)
